@@ -344,3 +344,173 @@ def internal_params(repo, typed, mods, attr_flags) -> dict[tuple[str, str, str],
             out[(key[0], key[1], p)] = "%s binds it to %s" % (caller[1], norm(av)[:40])
             changed = True
     return out
+
+
+# ---------------------------------------------------------------------------------------------------------------------
+# C12.g / C12.h: the isomorphism test that "parsing the same document twice gives isomorphic graphs" is stated with
+# (rdflib.compare) prunes its search by symmetries; a pruning map may only hold verified symmetries
+# ---------------------------------------------------------------------------------------------------------------------
+def local_values(fn: ast.AST, name: str) -> list[ast.AST]:
+    """every value bound to the local `name` by an assignment of `fn` (for an unpacking assignment: the whole right-hand side)"""
+    out = []
+    for n in own_nodes(fn):
+        if isinstance(n, (ast.Assign, ast.AnnAssign)) and n.value is not None:
+            for t in (n.targets if isinstance(n, ast.Assign) else [n.target]):
+                if any(isinstance(x, ast.Name) and x.id == name for x in ast.walk(t)) and not isinstance(t, (ast.Subscript, ast.Attribute)):
+                    out.append(n.value)
+        elif isinstance(n, ast.NamedExpr) and n.target.id == name:
+            out.append(n.value)
+    return out
+
+
+def expand(e: ast.AST, fn: ast.AST, depth: int = 4) -> list[ast.AST]:
+    """the nodes of `e` together with the nodes of every value assigned in `fn` to a local that `e` reads (def-use closure)"""
+    out: list[ast.AST] = []
+    seen_names: set[str] = set()
+    work = [(e, 0)]
+    while work:
+        x, d = work.pop()
+        for n in ast.walk(x):
+            out.append(n)
+            if isinstance(n, ast.Name) and isinstance(n.ctx, ast.Load) and n.id not in seen_names and d < depth:
+                seen_names.add(n.id)
+                for v in local_values(fn, n.id):
+                    work.append((v, d + 1))
+    return out
+
+
+def _innermost_loop(mod, node, fn):
+    for p in mod.parents(node):
+        if isinstance(p, (ast.For, ast.AsyncFor, ast.While)):
+            return p
+        if p is fn:
+            return None
+    return None
+
+
+def pruning_builders(repo, typed, modname: str):
+    """[(consumer qualname, continue statement, builder full name, builder call)]: a loop of a function of `modname` skips an
+    item (`continue`) under a test that reads - directly or through locals - a mapping produced by a function of the same module."""
+    mod = repo.modules[modname]
+    out = []
+    for q, f in mod.functions():
+        for c in own_nodes(f):
+            if not isinstance(c, ast.Continue):
+                continue
+            loop = _innermost_loop(mod, c, f)
+            if loop is None:
+                continue
+            tests = []
+            for p in mod.parents(c):
+                if p is loop:
+                    break
+                if isinstance(p, ast.If):
+                    tests.append(p.test)
+            for t in tests:
+                for n in expand(t, f):
+                    if not isinstance(n, ast.Call):
+                        continue
+                    tf = typed.type_of(modname, n)
+                    if tf is None or not any(i in ("builtins.dict", "collections.defaultdict", "typing.Mapping", "typing.MutableMapping") for i in tf.items):
+                        continue
+                    for full in typed.callees(modname, n):
+                        if full.startswith(modname + ".") and isinstance(mod.defs.get(full[len(modname) + 1:]), (ast.FunctionDef, ast.AsyncFunctionDef)):
+                            if not any(o[2] == full and o[0] == q for o in out):
+                                out.append((q, c, full, n))
+    return out
+
+
+def reaches_fn(repo, typed, modname: str, start: ast.AST, target_full: str, depth: int = 2) -> bool:
+    """the call `start` resolves to `target_full` or to a function of `modname` that calls it (<= depth levels down)"""
+    mod = repo.modules[modname]
+    work = [(c, 0) for c in typed.callees(modname, start)]
+    seen = set()
+    while work:
+        full, d = work.pop()
+        if full == target_full:
+            return True
+        if full in seen or d >= depth or not full.startswith(modname + "."):
+            continue
+        seen.add(full)
+        fd = mod.defs.get(full[len(modname) + 1:])
+        if isinstance(fd, (ast.FunctionDef, ast.AsyncFunctionDef)):
+            for n in own_nodes(fd, include_nested=True):
+                if isinstance(n, ast.Call):
+                    work.extend((c, d + 1) for c in typed.callees(modname, n))
+    return False
+
+
+def equality_guards(repo, typed, modname: str, fn: ast.AST, target_full: str) -> dict[int, tuple[str, ast.AST]]:
+    """{id(If): ('ne'|'eq', If)} for the `if` statements of `fn` that compare (== / !=, possibly under `not`) two DIFFERENT values each
+    of which is computed - directly or through locals - by a call that reaches `target_full`"""
+    out = {}
+    for n in own_nodes(fn):
+        if not isinstance(n, ast.If):
+            continue
+        t, flip = n.test, False
+        for _ in range(6):
+            if isinstance(t, ast.UnaryOp) and isinstance(t.op, ast.Not):
+                t, flip = t.operand, not flip
+            elif isinstance(t, ast.Name) and len(local_values(fn, t.id)) == 1:
+                t = local_values(fn, t.id)[0]  # `same = a == b` ... `if not same:`
+            else:
+                break
+        if not (isinstance(t, ast.Compare) and len(t.ops) == 1 and isinstance(t.ops[0], (ast.Eq, ast.NotEq))):
+            continue
+        sides = [t.left, t.comparators[0]]
+
+        def canonical(side):
+            return any(isinstance(x, ast.Call) and reaches_fn(repo, typed, modname, x, target_full) for x in expand(side, fn))
+
+        def text(side):
+            vs = local_values(fn, side.id) if isinstance(side, ast.Name) else []
+            return norm(vs[0]) if len(vs) == 1 and not isinstance(vs[0], ast.Name) else norm(side)
+        if not all(canonical(s) for s in sides) or text(sides[0]) == text(sides[1]):
+            continue
+        ne = isinstance(t.ops[0], ast.NotEq) != flip
+        out[id(n)] = ("ne" if ne else "eq", n)
+    return out
+
+
+def reached_without_equality(g, guards: dict[int, str], target: int) -> bool:
+    """some path entry -> target leaves every guard test on its 'the two values differ' side (guards: CFG test node -> 'ne'|'eq')"""
+    seen: set[int] = set()
+    stack = [g.entry]
+    while stack:
+        n = stack.pop()
+        if n in seen:
+            continue
+        seen.add(n)
+        for x in g.succ[n]:
+            lab = g.edge_label.get((n, x), "")
+            if n in guards:
+                differ_side = (lab == "true") if guards[n] == "ne" else (lab != "true")
+                if not differ_side:
+                    continue
+            stack.append(x)
+    return target in seen
+
+
+def mapping_stores(fn: ast.AST) -> list[tuple[ast.AST, str]]:
+    """statements of `fn` that write an entry of a mapping which is a parameter of `fn` or which `fn` returns:
+    M[k] = v, M[k] op= v, M[k].add/update(...), M.update/setdefault(...)"""
+    a = fn.args
+    names = {x.arg for x in a.posonlyargs + a.args + a.kwonlyargs}
+    for n in own_nodes(fn):
+        if isinstance(n, ast.Return) and n.value is not None:
+            names |= {x.id for x in ast.walk(n.value) if isinstance(x, ast.Name)}
+    if a.posonlyargs + a.args:
+        names.discard((a.posonlyargs + a.args)[0].arg if (a.posonlyargs + a.args)[0].arg in ("self", "cls") else None)
+    out = []
+    for n in own_nodes(fn):
+        if isinstance(n, (ast.Assign, ast.AugAssign, ast.AnnAssign)):
+            for t in (n.targets if isinstance(n, ast.Assign) else [n.target]):
+                if isinstance(t, ast.Subscript) and isinstance(t.value, ast.Name) and t.value.id in names:
+                    out.append((n, t.value.id))
+        elif isinstance(n, ast.Expr) and isinstance(n.value, ast.Call) and isinstance(n.value.func, ast.Attribute):
+            r, meth = n.value.func.value, n.value.func.attr
+            if isinstance(r, ast.Subscript) and isinstance(r.value, ast.Name) and r.value.id in names and meth in ("add", "update", "append", "extend", "__ior__"):
+                out.append((n, r.value.id))
+            elif isinstance(r, ast.Name) and r.id in names and meth in ("update", "setdefault", "__setitem__"):
+                out.append((n, r.id))
+    return out
